@@ -1585,11 +1585,15 @@ class Enum(BeginStatement):
     """
 
     blocktype = "enum"
+    name = ""
     end_stmt_cls = EndEnum
     match = re.compile(r"enum\s*,\s*bind\s*\(\s*c\s*\)\Z", re.I).match
 
     def process_item(self):
         return BeginStatement.process_item(self)
+
+    def tostr(self):
+        return "ENUM, BIND(C)"
 
     def get_classes(self):
         return [Enumerator]
